@@ -206,20 +206,13 @@ func c02R2(p *Prog, r *Report) {
 			}
 		}
 	})
-	if trimCall == nil || keepFn == nil {
-		r.Bad("C02.R2", "TrimStream argument", p.Pos(trim.Pos()), "the amount of history kept is not computed by a function of the record length (constant or foreign value)")
+	if trimCall == nil {
+		r.Bad("C02.R2", "TrimStream argument", p.Pos(trim.Pos()), "the stream is not trimmed to a computed amount of history (no call of TrimKeepingN)")
 		return
 	}
-	r.OK("C02.R2", "TrimStream argument", p.InstrPos(trimCall), "TrimKeepingN("+FuncName(keepFn)+"())")
-	r.Fn(FuncName(keepFn))
-	c := NewPolyCtx(keepFn)
-	Instrs(keepFn, func(in ssa.Instruction) {
-		ret, ok := in.(*ssa.Return)
-		if !ok {
-			return
-		}
-		pl := c.Of(ret.Results[0])
-		// expect a*X + b with X a path ending in nsamp / NSamples
+	// the amount kept: a*X + b with X a path ending in nsamp / NSamples, a >= 2, b >= 0; computed
+	// by a helper (the value returned on each of its returns) or in place
+	judge := func(pl Poly, at string, who string) {
 		good := false
 		var a, b int64
 		sym := ""
@@ -242,8 +235,25 @@ func c02R2(p *Prog, r *Report) {
 		if sym != "" && !strings.HasPrefix(sym, "other:") && sym != "nonlinear" && a >= 2 && b >= 0 && len(pl) <= 2 {
 			good = true
 		}
-		r.Check(good, "C02.R2", FuncName(keepFn)+" keeps >= 2 records", p.InstrPos(ret), fmt.Sprintf("keeps %s samples", pl),
+		r.Check(good, "C02.R2", who+" keeps >= 2 records", at, fmt.Sprintf("keeps %s samples", pl),
 			fmt.Sprintf("the history kept between blocks is %s; it must be a*nsamp+b with a>=2, b>=0 (one record of unscanned tail plus one record of look-back for deferred edge-multi triggers), otherwise triggers near block edges are lost", pl))
+	}
+	if keepFn == nil || !isModuleFn(keepFn) {
+		cc := CallOf(trimCall)
+		c := NewPolyCtx(trim)
+		r.OK("C02.R2", "TrimStream argument", p.InstrPos(trimCall), "TrimKeepingN(<computed in place>)")
+		judge(c.Of(cc.Args[len(cc.Args)-1]), p.InstrPos(trimCall), FuncName(trim))
+		return
+	}
+	r.OK("C02.R2", "TrimStream argument", p.InstrPos(trimCall), "TrimKeepingN("+FuncName(keepFn)+"())")
+	r.Fn(FuncName(keepFn))
+	c := NewPolyCtx(keepFn)
+	Instrs(keepFn, func(in ssa.Instruction) {
+		ret, ok := in.(*ssa.Return)
+		if !ok {
+			return
+		}
+		judge(c.Of(ret.Results[0]), p.InstrPos(ret), FuncName(keepFn))
 	})
 }
 
@@ -415,8 +425,9 @@ func c02R4(p *Prog, r *Report) {
 		}
 		guarded := false
 		for _, ci := range controllingIfs(st.Block()) {
-			if bo, ok := ci.If.Cond.(*ssa.BinOp); ok && bo.Op == token.GTR && ci.Branch == 0 {
-				if z, isC := constInt(bo.Y); isC && z == 0 {
+			// 0 < x on this side, however spelled
+			if lx, _, side, ok := strictLess(ci.If.Cond); ok && side == ci.Branch {
+				if z, isC := constInt(lx); isC && z == 0 {
 					guarded = true
 				}
 			}
@@ -626,20 +637,19 @@ func c02R7(p *Prog, r *Report) {
 		return typeName(c.Type()) == "DataRecord" && c.Call.StaticCallee().Signature.Recv() != nil
 	}
 	var passes []*ssa.Function
+	seenPass := map[*ssa.Function]bool{}
 	Instrs(trig, func(in ssa.Instruction) {
-		cc := CallOf(in)
-		if cc == nil || cc.StaticCallee() == nil {
-			return
-		}
-		f := cc.StaticCallee()
-		has := false
-		Instrs(f, func(x ssa.Instruction) {
-			if makesRecord(x) {
-				has = true
+		for _, f := range p.calledFuncs(in) {
+			has := false
+			Instrs(f, func(x ssa.Instruction) {
+				if makesRecord(x) {
+					has = true
+				}
+			})
+			if has && !seenPass[f] {
+				seenPass[f] = true
+				passes = append(passes, f)
 			}
-		})
-		if has {
-			passes = append(passes, f)
 		}
 	})
 	for _, f := range passes {
@@ -741,102 +751,104 @@ func c02R8(p *Prog, r *Report) {
 		return
 	}
 	n := 0
+	seenR8 := map[*ssa.Function]bool{}
 	Instrs(trig, func(in ssa.Instruction) {
-		cc := CallOf(in)
-		if cc == nil || cc.StaticCallee() == nil {
-			return
-		}
-		f := cc.StaticCallee()
-		// shifted buffers: MakeSlice B with a store B[i] = B[i] + K
-		type shift struct {
-			buf ssa.Value
-			k   int64
-			t   types.Type
-		}
-		var shifts []shift
-		Instrs(f, func(x ssa.Instruction) {
-			st, ok := x.(*ssa.Store)
-			if !ok {
-				return
+		for _, f := range p.calledFuncs(in) {
+			if seenR8[f] {
+				continue
 			}
-			ia, ok := st.Addr.(*ssa.IndexAddr)
-			if !ok {
-				return
+			seenR8[f] = true
+			// shifted buffers: MakeSlice B with a store B[i] = B[i] + K
+			type shift struct {
+				buf ssa.Value
+				k   int64
+				t   types.Type
 			}
-			bo, ok := st.Val.(*ssa.BinOp)
-			if !ok || bo.Op != token.ADD {
-				return
-			}
-			k, isC := constInt(bo.Y)
-			ld, isLd := bo.X.(*ssa.UnOp)
-			if !isC || !isLd {
-				return
-			}
-			if la, ok := ld.X.(*ssa.IndexAddr); !ok || la.X != ia.X {
-				return
-			}
-			shifts = append(shifts, shift{ia.X, k, bo.Type()})
-		})
-		if len(shifts) == 0 {
-			return
-		}
-		fromShifted := func(v ssa.Value) (shift, bool) {
-			ld, ok := v.(*ssa.UnOp)
-			if !ok || ld.Op != token.MUL {
-				return shift{}, false
-			}
-			ia, ok := ld.X.(*ssa.IndexAddr)
-			if !ok {
-				return shift{}, false
-			}
-			for _, s := range shifts {
-				if ia.X == s.buf {
-					return s, true
-				}
-				if ph, ok := ia.X.(*ssa.Phi); ok {
-					for _, e := range ph.Edges {
-						if e == s.buf {
-							return s, true
-						}
-					}
-				}
-			}
-			return shift{}, false
-		}
-		Instrs(f, func(x ssa.Instruction) {
-			bo, ok := x.(*ssa.BinOp)
-			if !ok {
-				return
-			}
-			switch bo.Op {
-			case token.LSS, token.LEQ, token.GTR, token.GEQ:
-			default:
-				return
-			}
-			for _, pair := range [][2]ssa.Value{{bo.X, bo.Y}, {bo.Y, bo.X}} {
-				s, ok := fromShifted(stripConv(pair[0]))
+			var shifts []shift
+			Instrs(f, func(x ssa.Instruction) {
+				st, ok := x.(*ssa.Store)
 				if !ok {
-					continue
+					return
 				}
-				n++
-				r.Fn(FuncName(f))
-				same := types.Identical(pair[0].Type(), s.t)
-				// the other operand: phi(level, level + K) with the addition done in the sample type
-				thrOK := false
-				if ph, isPhi := pair[1].(*ssa.Phi); isPhi {
-					for _, e := range ph.Edges {
-						if add, isAdd := e.(*ssa.BinOp); isAdd && add.Op == token.ADD && types.Identical(add.Type(), s.t) {
-							if k, isC := constInt(add.Y); isC && k == s.k {
-								thrOK = true
+				ia, ok := st.Addr.(*ssa.IndexAddr)
+				if !ok {
+					return
+				}
+				bo, ok := st.Val.(*ssa.BinOp)
+				if !ok || bo.Op != token.ADD {
+					return
+				}
+				k, isC := constInt(bo.Y)
+				ld, isLd := bo.X.(*ssa.UnOp)
+				if !isC || !isLd {
+					return
+				}
+				if la, ok := ld.X.(*ssa.IndexAddr); !ok || la.X != ia.X {
+					return
+				}
+				shifts = append(shifts, shift{ia.X, k, bo.Type()})
+			})
+			if len(shifts) == 0 {
+				return
+			}
+			fromShifted := func(v ssa.Value) (shift, bool) {
+				ld, ok := v.(*ssa.UnOp)
+				if !ok || ld.Op != token.MUL {
+					return shift{}, false
+				}
+				ia, ok := ld.X.(*ssa.IndexAddr)
+				if !ok {
+					return shift{}, false
+				}
+				for _, s := range shifts {
+					if ia.X == s.buf {
+						return s, true
+					}
+					if ph, ok := ia.X.(*ssa.Phi); ok {
+						for _, e := range ph.Edges {
+							if e == s.buf {
+								return s, true
 							}
 						}
 					}
 				}
-				key := fmt.Sprintf("%s: comparison of a shifted sample #%d is made in the sample type with an equally shifted threshold", FuncName(f), n)
-				r.Check(same && thrOK, "C02.R8", key, p.InstrPos(bo), "sample and threshold both carry +"+fmt.Sprint(s.k)+" applied in "+s.t.String(),
-					"the samples were shifted by "+fmt.Sprint(s.k)+" in "+s.t.String()+" (wrapping), but the comparison is made after widening the sample or against a threshold shifted in another type: for thresholds at or beyond the wrap point (negative levels of signed data) the order of sample and threshold is reversed and the trigger never, or always, fires")
+				return shift{}, false
 			}
-		})
+			Instrs(f, func(x ssa.Instruction) {
+				bo, ok := x.(*ssa.BinOp)
+				if !ok {
+					return
+				}
+				switch bo.Op {
+				case token.LSS, token.LEQ, token.GTR, token.GEQ:
+				default:
+					return
+				}
+				for _, pair := range [][2]ssa.Value{{bo.X, bo.Y}, {bo.Y, bo.X}} {
+					s, ok := fromShifted(stripConv(pair[0]))
+					if !ok {
+						continue
+					}
+					n++
+					r.Fn(FuncName(f))
+					same := types.Identical(pair[0].Type(), s.t)
+					// the other operand: phi(level, level + K) with the addition done in the sample type
+					thrOK := false
+					if ph, isPhi := pair[1].(*ssa.Phi); isPhi {
+						for _, e := range ph.Edges {
+							if add, isAdd := e.(*ssa.BinOp); isAdd && add.Op == token.ADD && types.Identical(add.Type(), s.t) {
+								if k, isC := constInt(add.Y); isC && k == s.k {
+									thrOK = true
+								}
+							}
+						}
+					}
+					key := fmt.Sprintf("%s: comparison of a shifted sample #%d is made in the sample type with an equally shifted threshold", FuncName(f), n)
+					r.Check(same && thrOK, "C02.R8", key, p.InstrPos(bo), "sample and threshold both carry +"+fmt.Sprint(s.k)+" applied in "+s.t.String(),
+						"the samples were shifted by "+fmt.Sprint(s.k)+" in "+s.t.String()+" (wrapping), but the comparison is made after widening the sample or against a threshold shifted in another type: for thresholds at or beyond the wrap point (negative levels of signed data) the order of sample and threshold is reversed and the trigger never, or always, fires")
+				}
+			})
+		}
 	})
 }
 
@@ -901,7 +913,7 @@ func scanStartDelay(p *Prog, r *Report, fn *ssa.Function, depth int) (dTerms []P
 		}
 	}
 	// one return of max(hold + D, NPresamples)
-	if len(rets) == 1 {
+	if _, isPhi := rets[0].Results[0].(*ssa.Phi); len(rets) == 1 && !isPhi {
 		ts := maxTerms(c, rets[0].Results[0])
 		var rest []Poly
 		sawPre := false
@@ -920,13 +932,48 @@ func scanStartDelay(p *Prog, r *Report, fn *ssa.Function, depth int) (dTerms []P
 		}
 		return splitDelay(c, rest[0], hold), desc, ""
 	}
-	// several returns: the NPresamples arm under `start < NPresamples`, the other hold + D
+	// several alternatives (returns, or the values merged into one result variable): the
+	// NPresamples arm under `start < NPresamples` (or `NPresamples > start`), the other hold + D
+	type alt struct {
+		v     ssa.Value
+		under []ctrl // the branch conditions this alternative is taken under
+	}
+	var alts []alt
 	for _, ret := range rets {
-		v := c.Of(ret.Results[0])
+		if ph, isPhi := ret.Results[0].(*ssa.Phi); isPhi && len(rets) == 1 {
+			for i, e := range ph.Edges {
+				pred := ph.Block().Preds[i]
+				under := controllingIfs(pred)
+				if iff, ok := pred.Instrs[len(pred.Instrs)-1].(*ssa.If); ok {
+					if k := branchOf(iff, pred, ph.Block()); k >= 0 {
+						under = append(under, ctrl{If: iff, Branch: k})
+					}
+				}
+				alts = append(alts, alt{e, under})
+			}
+			continue
+		}
+		alts = append(alts, alt{ret.Results[0], controllingIfs(ret.Block())})
+	}
+	for _, a := range alts {
+		v := c.Of(a.v)
 		if v.Equal(npre) {
 			okc := false
-			for _, ci := range controllingIfs(ret.Block()) {
-				if bo, ok := ci.If.Cond.(*ssa.BinOp); ok && bo.Op == token.LSS && c.Of(bo.Y).Equal(npre) && ci.Branch == 0 {
+			for _, ci := range a.under {
+				bo, ok := ci.If.Cond.(*ssa.BinOp)
+				if !ok {
+					continue
+				}
+				if bo.Op == token.LSS && c.Of(bo.Y).Equal(npre) && ci.Branch == 0 {
+					okc = true
+				}
+				if bo.Op == token.GTR && c.Of(bo.X).Equal(npre) && ci.Branch == 0 {
+					okc = true
+				}
+				if bo.Op == token.GEQ && c.Of(bo.Y).Equal(npre) && ci.Branch == 1 {
+					okc = true
+				}
+				if bo.Op == token.LEQ && c.Of(bo.X).Equal(npre) && ci.Branch == 1 {
 					okc = true
 				}
 			}
@@ -938,7 +985,7 @@ func scanStartDelay(p *Prog, r *Report, fn *ssa.Function, depth int) (dTerms []P
 		dTerms = append(dTerms, splitDelay(c, v, hold)...)
 		desc = v.String()
 	}
-	if len(rets) < 2 {
+	if len(alts) < 2 {
 		return nil, desc, "the scan start is not the larger of the hold-off start and NPresamples"
 	}
 	return dTerms, desc, ""
